@@ -3,7 +3,7 @@
 # a finding listed in known_findings.json (the check is run with that one entry ignored, so it reports it as a violation)
 id=$1; p=$2
 cd /verif
-out=$(VERIF_WITNESS_FOR=$id ./bin/check $p quick 2>&1)
+out=$(VERIF_NO_EVIDENCE=1 VERIF_WITNESS_FOR=$id ./bin/check $p quick 2>&1)
 f=$(echo "$out" | grep '^VIOLATION' | head -1 | sed 's/.*replay=//')
 [ -n "$f" ] || { echo "no witness produced"; exit 2; }
 cp "$f" findings/$id.replay.json && echo "findings/$id.replay.json"
